@@ -260,6 +260,115 @@ theorem C10_else_unimplemented_any_construction_fails :
   rw [hw] at ho
   cases ho
 
+/-! ### Histories, server configuration, constructors (dimension audit) -/
+
+private theorem answers_inv (t : Table) (uses : List Use) :
+    ∀ (p : Proc), (∀ x ∈ p.vals, x = t) → ∀ pa ∈ Proc.answers p uses, pa.2 = t.serve pa.1 := by
+  induction uses with
+  | nil => intro p _ pa h; simp [Proc.answers] at h
+  | cons u us ih =>
+    intro p hp pa h
+    cases u with
+    | call v path =>
+      simp only [Proc.answers, List.mem_append] at h
+      rcases h with h | h
+      · cases hv : p.vals[v]? with
+        | none => rw [hv] at h; simp at h
+        | some t' =>
+          rw [hv] at h
+          simp only [List.mem_singleton] at h
+          have : t' = t := hp t' (List.mem_of_getElem? hv)
+          rw [h, this]
+      · exact ih p hp pa h
+    | clone v =>
+      simp only [Proc.answers] at h
+      refine ih (p.clone v) ?_ pa h
+      intro x hx
+      unfold Proc.clone at hx
+      cases hv : p.vals[v]? with
+      | none => rw [hv] at hx; exact hp x hx
+      | some t' =>
+        rw [hv] at hx
+        simp only [List.mem_append, List.mem_singleton] at hx
+        rcases hx with hx | hx
+        · exact hp x hx
+        · rw [hx]; exact hp t' (List.mem_of_getElem? hv)
+
+/-- **A router has no memory.**  Take the router a construction yields and use it any way at
+all — any number of calls on the value itself, on clones of it, on clones of clones (what every
+accepted connection of a `transport::Server` gets), in any interleaving: every request of the
+history is answered exactly as if it were the only request the freshly built router ever saw.
+(Invariant over the history, no bound on its length.  That `Routes::call`, `Clone` and the
+per-connection stack really keep no state is what the `seq` cases tie to the code.) -/
+theorem C10_history_has_no_memory (t : Table) (uses : List Use) :
+    ∀ pa ∈ Proc.answers ⟨[t]⟩ uses, pa.2 = t.serve pa.1 :=
+  answers_inv t uses ⟨[t]⟩ (by intro x hx; simpa using hx)
+
+/-- … hence, for a router built without a user-made `axum::Router` over a set of services,
+every request of every history satisfies the property's executable predicate: the handler of
+`(S, M)` ran iff the path of *that* request is literally `/S/M`, every other request got
+UNIMPLEMENTED from the routing layer. -/
+theorem C10_every_request_of_a_history (start : Start) (ops : List Op)
+    (hs : start.tonicOnly = true) (ho : ∀ op ∈ ops, op.tonicOnly = true)
+    (hwf : WellFormed (mounted start ops)) (uses : List Use) (hst : Nat) :
+    ∀ pa ∈ Proc.answers ⟨[(build start ops).table]⟩ uses,
+      pa.2 = .tonic (dispatch (mounted start ops) pa.1) ∧
+      Spec.Router.allowed (decl (mounted start ops)) pa.1 hst
+        ⟨(dispatch (mounted start ops) pa.1).handlerRan,
+          (match (dispatch (mounted start ops) pa.1).routerStatus with
+            | some c => some c | none => some hst),
+          200, true⟩ = true := by
+  intro pa h
+  refine ⟨?_, C10_model_allowed _ hwf pa.1 hst⟩
+  rw [C10_history_has_no_memory _ uses pa h]
+  exact C10_construction_dispatch start ops hs ho pa.1
+
+/-- **Reconfigured after use.**  A router that has already answered requests (itself and through
+clones) and is then given more services, any number of times: every request is answered by the
+table as it stood in its own round — the services registered up to then, no trace of what was
+asked before. -/
+theorem C10_reconfigured_after_use (rounds : List (List Use × Svc)) (last : List Use) :
+    ∀ (t : Table), ∀ pa ∈ Proc.rounds t rounds last, ∃ k, k ≤ rounds.length ∧
+      pa.2 = ((rounds.take k).foldl (fun t r => t.addService r.2) t).serve pa.1 := by
+  induction rounds with
+  | nil =>
+    intro t pa h
+    exact ⟨0, Nat.le_refl _, by simpa using C10_history_has_no_memory t last pa h⟩
+  | cons r rest ih =>
+    intro t pa h
+    obtain ⟨us, s⟩ := r
+    simp only [Proc.rounds, List.mem_append] at h
+    rcases h with h | h
+    · exact ⟨0, Nat.zero_le _, by simpa using C10_history_has_no_memory t us pa h⟩
+    · obtain ⟨k, hk, hpa⟩ := ih (t.addService s) pa h
+      exact ⟨k + 1, by simpa using hk, by simpa [List.take_succ_cons] using hpa⟩
+
+/-- A clone answers like the value it was cloned from, before and after either was used. -/
+theorem C10_clone_answers_alike (t : Table) (pre post : List Use) (path : Bytes) :
+    ∀ pa ∈ Proc.answers ⟨[t]⟩ (pre ++ [.clone 0] ++ post ++ [.call 0 path, .call 1 path]),
+      pa.1 = path → pa.2 = t.serve path := by
+  intro pa h hp
+  rw [← hp]
+  exact C10_history_has_no_memory t _ pa h
+
+/-- *Transcription lemma (definitional; the fact is tie-only — `ctor` cases)*: the public
+constructors / setters of a generated server and the generator switches that do not touch names
+give the same `NAME` and the same `match` arms, so a registry of servers made any of these ways
+dispatches as the plain registry. -/
+theorem C10_constructors_transparent (reg : List Svc) (how : Svc → Ctor) (path : Bytes) :
+    dispatch (reg.map (fun s => s.made (how s))) path = dispatch reg path := by
+  simp [Svc.made]
+
+/-- A service without methods (the generated `match` has the default arm only): every path
+below it is answered UNIMPLEMENTED by that service, no handler exists to run. -/
+theorem C10_empty_service (reg : List Svc) (hwf : WellFormed reg) (s : Svc) (hs : s ∈ reg)
+    (hm : s.methods = []) (path : Bytes) (h : routeMatches s.name path = true) :
+    dispatch reg path = .svcDefault s.name := by
+  unfold dispatch
+  have hd : hasDup (reg.map Svc.name) = false := (hasDup_false_iff _).mpr hwf.2.2
+  rw [hd, find_route reg hwf s hs path h]
+  simp [Svc.call, hm]
+
 /- Non-vacuity and the shapes the property text lists, on a registry with names that are
 prefixes of one another, with and without package, differing only in case. -/
 private def bs (s : String) : Bytes := s.toList.map (fun c => c.toNat.toUInt8)
@@ -303,5 +412,15 @@ example : (build (.fromAxum ⟨[bs "/u/hello"], true⟩) [.addService s0]).table
 example : (build (.fromAxum ⟨[bs "/u/hello"], true⟩) [.addService s0]).table.serve (bs "/u/hello") = .userRoute (bs "/u/hello") := by decide
 example : (build (.fromAxum ⟨[bs "/u/hello"], true⟩) [.addService s0]).table.serve (bs "/zz") = .userFallback := by decide
 example : (build (.builderFromAxum ⟨[], false⟩) [.addService s0, .serverAddRoutes]).table.serve (bs "/zz") = .axumNotFound := by decide
+
+-- histories: the value, a clone made before and one made after a use, calls interleaved
+example : (Proc.answers ⟨[⟨reg0, [], .unimplemented⟩]⟩
+    [.call 0 (bs "/a.S/M"), .clone 0, .call 1 (bs "/a.Sv/M"), .call 0 (bs "/a.S/Z"), .clone 1, .call 2 (bs "/a.S/M"),
+     .call 7 (bs "/a.S/M")]).map (·.2)
+    = [.tonic (.handler (bs "a.S") (bs "M")), .tonic (.handler (bs "a.Sv") (bs "M")), .tonic (.svcDefault (bs "a.S")),
+       .tonic (.handler (bs "a.S") (bs "M"))] := by decide
+example : (Proc.rounds ⟨[s0], [], .unimplemented⟩ [([.call 0 (bs "/S/M")], s1)] [.call 0 (bs "/S/M")]).map (·.2)
+    = [.tonic .fallback, .tonic (.handler (bs "S") (bs "M"))] := by decide
+example : dispatch (reg0 ++ [⟨bs "x.Empty", []⟩]) (bs "/x.Empty/M") = .svcDefault (bs "x.Empty") := by decide
 
 end C10
